@@ -102,6 +102,28 @@ theorem encode_marked_fields (tt : List TokenDesc) (flat : List (InstrDesc × Va
     rw [hdescs, patWrites_pats] at this
     exact this
 
+theorem mem_zip_map {α β γ : Type} (f : α → β) : ∀ (l : List α) (m : List γ), m.length = l.length →
+    ∀ x ∈ l, ∃ b, (x, b) ∈ l.zip m ∧ (f x, b) ∈ (l.map f).zip m
+  | [], _, _, x, hx => by cases hx
+  | a :: l, [], hl, _, _ => by simp at hl
+  | a :: l, b :: m, hl, x, hx => by
+    rcases List.mem_cons.mp hx with rfl | hin
+    · exact ⟨b, by simp, by simp⟩
+    · obtain ⟨b', h1, h2⟩ := mem_zip_map f l m (by simpa using hl) x hin
+      exact ⟨b', by simp [h1], by simp [h2]⟩
+
+/-- a pattern of an instance, paired with its mark, in both zipped views -/
+theorem pattern_with_mark (ds : List TokenDesc) (flat : List (InstrDesc × Vals)) (pv : PatDesc × Option Int)
+    (h : pv ∈ patWrites flat) :
+    ∃ b, (pv, b) ∈ (patWrites flat).zip (instMarks ds flat)
+      ∧ (pv.1, b) ∈ ((flat.map (·.1)).flatMap (·.patterns)).zip (marks ds ((flat.map (·.1)).flatMap (·.patterns))) := by
+  have hl : (instMarks ds flat).length = (patWrites flat).length := by
+    unfold instMarks; rw [marks_length, ← patWrites_pats, List.length_map]
+  obtain ⟨b, h1, h2⟩ := mem_zip_map (·.1) (patWrites flat) (instMarks ds flat) hl pv h
+  refine ⟨b, h1, ?_⟩
+  rw [patWrites_pats] at h2
+  exact h2
+
 /-- NO COLLISION.  Two instances of the same shape whose encodings have the same token words: every
     marked pattern (in particular, under `orderedOK`, every pattern written from an operand) was given
     values that agree modulo `2^width` — hence equal values when both fit the field. -/
